@@ -93,11 +93,12 @@ class Closure:
 
 
 class FloatV:
-    __slots__ = ('bits', 'v')
+    __slots__ = ('bits', 'v', 'src')
 
-    def __init__(self, bits, v):
+    def __init__(self, bits, v, src=None):
         self.bits = bits
         self.v = v
+        self.src = src  # the float32 bit pattern this float64 was widened from, if any
 
     def __repr__(self):
         return 'FloatV(%d,%r)' % (self.bits, self.v)
